@@ -39,7 +39,7 @@ func (t *pt) String() string {
 	switch t.op {
 	case "c":
 		return t.n.String()
-	case "N", "P", "B", "B256", "B248":
+	case "N", "P", "B", "B256", "B248", "Gx", "Gy":
 		return t.op
 	case "param", "draw", "asmret":
 		return t.s
@@ -268,6 +268,9 @@ func domainFacts(terms []*pt) []Fact {
 		case "modP":
 			out = append(out, Fact{E: self}, Fact{E: linTerm("P", false).Sub(self).Sub(linConst(1))})
 		case "affx", "affy":
+			out = append(out, Fact{E: self}, Fact{E: linTerm("P", false).Sub(self).Sub(linConst(1))})
+		case "B", "Gx", "Gy":
+			// parameters of the curve literal are field elements (checked numerically where the symbols are introduced)
 			out = append(out, Fact{E: self}, Fact{E: linTerm("P", false).Sub(self).Sub(linConst(1))})
 		case "N":
 			// 2^255 < N < P < 2^256 ; N has 32 bytes
